@@ -105,7 +105,11 @@ for _m, _cap in ((76, 3), (83, 3), (62, 2)):
     H("parse_emit_mtu%d" % _m, src="h_emit.c", fn="h_parse_emit", props=_EMIT_PROPS + ["C18"], enforce=["parseEmit"], replace=["sendProbeMsg"], safety_props=["C18"],
       unwind=8, unwindset={"parseEmit.0": 8}, defines=["V_MTU_FIXED=%d" % _m, "V_SMALL_MTU=1"], unwind_props={"parseEmit.0": ["C06", "C01"]},
       bounded="small-frame instance MTU=%d, every declared count; code uniform in MTU" % _m)
-_EMIT_SMALL = ["parse_emit_strict_mtu76", "parse_emit_strict_mtu83", "parse_emit_strict_mtu62", "parse_emit_mtu76", "parse_emit_mtu83", "parse_emit_mtu62"]
+# symbolic MTU 576..9216, ANY declared count: the descriptor loop is closed by a LOOP CONTRACT (inductive invariant + decreases clause), no unwinding
+H("parse_emit_symmtu", src="h_emit_sym.c", props=_EMIT_PROPS + ["C18"], enforce=["parseEmit"], replace=["sendProbeMsg"], safety_props=["C18"],
+  loops=True, loops_file=os.path.join(os.path.dirname(os.path.dirname(os.path.abspath(__file__))), "harness", "h_emit_sym.loops.json"),
+  unwind=12, must_reach=["end"], no_native=True, loop_contracts=["parseEmit.0"])
+_EMIT_SMALL = ["parse_emit_symmtu", "parse_emit_strict_mtu76", "parse_emit_strict_mtu83", "parse_emit_strict_mtu62", "parse_emit_mtu76", "parse_emit_mtu83", "parse_emit_mtu62"]
 # (an MTU-1500 instance of parse_emit - 105 unwound iterations of the replaced callee - ran out of memory at the 12 object bits it needs; not run)
 
 # ---------------------------------------------------------------- lltdBlock.c: observation path (C07 / C19)
